@@ -5,15 +5,15 @@ from props import c02
 
 PROP = "C04"
 PROTOS = ["netrpc", "grpc", "grpcmux"]
-LAUNCHES = ["cmd", "runner", "reattach"]
+LAUNCHES = ["cmd", "runner", "reattach", "foreign"]   # foreign: reattached to a process that is not a child of the host
 BEHAVIOURS = ["prompt", "busy", "delay", "ignore", "frozen", "crashed", "failedhandshake"]
 MODEL_CFGS = ["kill_prompt.cfg", "kill_delay.cfg", "kill_ignore.cfg", "kill_crashed.cfg", "kill_frozen_ok.cfg", "kill_frozen_err.cfg"]
 
 
 def valid(proto, launch, beh, tier):
-    if launch == "reattach" and proto == "grpcmux":
+    if launch in ("reattach", "foreign") and proto == "grpcmux":
         return False                       # multiplexing is not supported with Reattach
-    if launch == "reattach" and beh == "failedhandshake":
+    if launch in ("reattach", "foreign") and beh == "failedhandshake":
         return False
     if beh == "frozen" and proto == "netrpc" and tier == "quick":
         return False                       # bounded only by the yamux keep-alive (~40 s): thorough tier
@@ -41,6 +41,8 @@ def make_cases(tier, rng):
             add(p, "cmd", "prompt", "repeated")
             add(p, rng.choice(["cmd", "runner"]), "ignore", "concurrent", 2)
         add("netrpc", "reattach", "delay", "concurrent", 3)
+        for p, b_ in (("netrpc", "delay"), ("grpc", "ignore"), ("grpc", "prompt"), ("netrpc", "crashed")):
+            add(p, "foreign", b_, "single")
         add("grpc", "cmd", "delay", "cleanup", 3)
         add("netrpc", "cmd", "ignore", "cleanup", 2)
     else:
